@@ -2,7 +2,7 @@ SPECIFICATION Spec
 CONSTANTS
   NSym = 4
   MinLen = 5
-  MaxLen = 6
+  MaxLen = 5
   Mode = "edit"
   Stems = "all"
 INVARIANTS Found SharesGram ScoreSafe
